@@ -26,6 +26,7 @@ def run(S):
     D = S.decls()
     lockstep(S, D)
     read_loop_step(S, D)
+    write_step(S, D)
     init_first(S, D)
 
 
@@ -474,3 +475,102 @@ def init_first(S, D):
     S.prove(ids[2], E2, [refused], z3.And(X.zint(rv2.d) == 1, z3.Not(z3.Or(*later)) if later else z3.BoolVal(True)),
             'when the first stage refuses a message, handle_message returns the refusal and neither the channel handler nor the rest of the handling sees the message', [])
     S.validate(ids[4], E, b, n=3, extra_vectors=[(0, 0), (1, 1), (0, 1)])
+
+
+def write_step(S, D):
+    """C15.e: the part of PeerManager::do_attempt_write_data that hands the front of the outbound queue to the socket:
+    a region from the look at the queue's front to the end of the loop body, from an arbitrary state."""
+    ids = ['C15.e.partial_write', 'C15.e.nopanic', 'C15.e.witness', 'C15.e.validate']
+    if all(S._skip(o) for o in ids):
+        return
+    f = S.fn('do_attempt_write_data')
+    E = S.engine(unwind=1)
+    mem = {}
+    args = [E.sym('a%d' % n, t, mem) if t.startswith('&') else X.Opaque('arg%d' % n) for n, t in f.params]
+    run = X.FnRun(E, f, args, True, mem)
+    succ, rpo, back, encl = run.analyse_cfg()
+    start = [b for b, (body, t) in f.blocks.items() if t[0] == 'call' and re.search(r'VecDeque::<.*Vec<u8>>::front$', t[2])]
+    if len(start) != 1:
+        raise X.Unsupported('do_attempt_write_data: %d looks at the front of the outbound queue' % len(start))
+    start = start[0]
+    heads = set(encl[start])
+    if not heads:
+        raise X.Unsupported('do_attempt_write_data: the write is not inside a loop')
+    PF = D.struct_fields('Peer')
+    B = E.sym('front_buffer.len', 'usize')
+    off = E.sym('peer.first_msg_offset', 'usize')
+    awaiting = z3.Bool('peer.awaiting_write_event')
+    queue_empty = z3.Bool('queue.empty')
+    sent = E.sym('socket.accepted', 'usize')
+    peer_c = E.new_cell()
+    mem[peer_c] = X.Adt('Peer', {PF.index('pending_outbound_buffer_first_msg_offset'): off, PF.index('awaiting_write_event'): X.B(awaiting)}, base='peer')
+    buf_c = E.new_cell()
+    mem[buf_c] = X.Seq([], B.t, 'u8')
+    sends, pops = [], []
+
+    def h_index_from(E_, m, func, argv, guard, mem_, dty, caller):
+        lo = E.read_path(argv[1], (('f', 0, 'usize'),), mem_, guard, 'range').t
+        v = argv[0]
+        while isinstance(v, X.Ref):
+            v = E.read_path(mem_[v.cell], v.path, mem_, guard, 'buf')
+        E.panic(z3.And(X.zbool(guard), lo > v.n), 'range start out of bounds', caller.fn.name)
+        c = E.new_cell()
+        mem_[c] = X.Adt('Slice', {0: X.I(lo, 'usize'), 1: X.I(v.n - lo, 'usize')})
+        return X.Ref(c)
+
+    def h_send(E_, m, func, argv, guard, mem_, dty, caller):
+        sl = argv[1]
+        while isinstance(sl, X.Ref):
+            sl = E.read_path(mem_[sl.cell], sl.path, mem_, guard, 'send')
+        if isinstance(sl, X.Adt) and sl.name == 'Slice':
+            sends.append((X.zbool(guard), sl.fs[0].t, sl.fs[1].t))
+            # SocketDescriptor::send_data: returns how much of the slice it took
+            E.assume(z3.Implies(X.zbool(guard), z3.And(sent.t >= 0, sent.t <= sl.fs[1].t)))
+            return sent
+        return X.I(0, 'usize')          # the forced empty write
+    peer_local = [n for n, t in f.params if t.startswith('&mut') and 'Peer' in t]
+    for rx, h in [
+        (r'VecDeque::<.*Vec<u8>>::front$', lambda *a: X.En('Option', z3.If(queue_empty, 0, 1), {1: [X.Ref(buf_c)]})),
+        (r'Vec<u8> as (?:std::ops::)?Index<(?:std::ops::)?RangeFrom<usize>>>::index$', h_index_from),
+        (r' as SocketDescriptor>::send_data$', h_send),
+        (r'VecDeque::<.*Vec<u8>>::pop_front$', lambda E_, m, func, argv, guard, *a: (pops.append(X.zbool(guard)), X.En('Option', 1, {1: [X.Opaque('sent buffer')]}))[1]),
+        (r'VecDeque::<.*Vec<u8>>::(?:capacity|len)$', lambda *a: E.sym('queue.size!%d' % next(E.nfresh), 'usize')),
+        (r'VecDeque::<.*Vec<u8>>::shrink_to_fit$', lambda *a: X.UNIT),
+        (r'PeerManager::<.*>::should_read_from$', lambda *a: X.B(z3.Bool('env.should_read!%d' % next(E.nfresh)))),
+    ]:
+        E.models.insert(0, (re.compile(rx), h))
+    init = {peer_local[0]: X.Ref(peer_c)} if peer_local else {}
+    E.depth += 1
+    rv, ret, m2 = run.run(start_bb=start, init=init, stop_bbs=heads)
+    E.depth -= 1
+    states = [st for b_ in sorted(run.stop_states, key=str) for st in run.stop_states[b_]]
+    if not states:
+        raise X.Unsupported('do_attempt_write_data: the loop head is not reached again (%s)' % [w for g_, w in E.unsupported][:3])
+    g_loop, m_loop = E.merge_mem(states)
+    again = X.zbool(g_loop)
+    pv = m_loop[peer_c]
+    off2 = E.read_path(pv, (('f', PF.index('pending_outbound_buffer_first_msg_offset'), 'usize'),), m_loop, True, 'spec').t
+    aw2 = X.zbool(E.read_path(pv, (('f', PF.index('awaiting_write_event'), 'bool'),), m_loop, True, 'spec').t)
+    real = [s_ for s_ in sends]
+    if len(real) != 1:
+        raise X.Unsupported('do_attempt_write_data: %d writes of queued data in the region' % len(real))
+    g_s, s_lo, s_len = real[0]
+    popped = z3.Or(*pops) if pops else z3.BoolVal(False)
+    pre = [off.t >= 0, off.t < B.t, B.t < 1 << 20, z3.Not(queue_empty)]         # invariant: the offset points inside the front buffer
+    for c_ in pre:
+        E.assume(c_)          # (so that the validation vector evaluates the encoding in such a state)
+    done = off.t + sent.t == B.t
+    claim = z3.And(g_s, s_lo == off.t, s_len == B.t - off.t, again,
+                   z3.If(done, z3.And(off2 == 0, popped, aw2 == awaiting), z3.And(off2 == off.t + sent.t, z3.Not(popped), aw2)))
+    b = Binding('peer_framing_probe', [z3.IntVal(1)], [z3.If(claim, 1, 0)], parse=lambda t: [1 if t[0] == t[1] else 0], line_fn=lambda v: WRITE_LINE,
+                via_solver=True, domain=[(1, 1)], panic=False)
+    S.prove(ids[0], E, pre, claim,
+            'the socket is offered exactly the unsent rest of the front buffer; if it takes all of it the buffer is dropped and the offset reset, otherwise the offset advances by what was taken (so the next write resumes at the first unsent byte - no byte is sent twice or skipped), the buffer stays, and writing pauses until the socket reports space',
+            [b], bounds='one pass through the write part of the loop body from an arbitrary state with a non-empty queue; buffers < 2^20 bytes; the socket takes any prefix')
+    S.no_panic(ids[1], E, pre, 'no slice index out of range, no overflow', [])
+    S.witness(ids[2], E, pre + [sent.t > 0, z3.Not(done)], again)
+    S.validate(ids[3], E, b, n=1, extra_vectors=[(1,)])
+
+
+# native scenario of C15.e: as FRAMING_LINE, but every socket takes at most 7 bytes per write
+WRITE_LINE = '3 0 1 19 w7 3 2 300 5000'
